@@ -1,6 +1,14 @@
 package props
 
 import (
+	"fmt"
+	"go/types"
+	"regexp"
+	"sort"
+	"strings"
+
+	"golang.org/x/tools/go/ssa"
+
 	"lkcheck/ir"
 	"lkcheck/report"
 )
@@ -9,29 +17,468 @@ func init() { Registry["C12"] = C12 }
 
 // C12 Block identity commits to content; parts reassemble only the original.
 func C12(p *ir.Program, r *report.R) {
-	r.Floor = 1
-	c12AddPart(p, r, "C12")
+	c := C{p, r}
+	r.Floor = 45
+	r.Explain = "Decided: (a) Header.Hash covers every exported Header field under its own name (exemption: Recover, see DESIGN) ; (b) block ids are compared whole (BlockID.Equals/PartSetHeader.Equals/BlockID.Key field coverage) ; (c) Block.ValidateBasic ties LastCommitHash/DataHash/EvidenceHash/NumTxs to the content and every mismatch returns an error; the list hashes cover every element in order (split coverage); (d) PartSet.AddPart admits a part only under 0 <= index < total, empty slot and a Merkle proof of part.Hash() at that index under the set's hash; SimpleProof.Verify / computeHashFromAunts reject out-of-range indices and compare with the root; Part.Hash hashes part.Bytes; (e) the proposal block is decoded only from a complete part set, read in index order; ProposalBlockParts is only created from a signature-checked proposal header or a +2/3 block id; fast sync builds the block id from block hash AND part-set header. NOT decided: collision resistance of Keccak/merkle, equality of reassembled bytes as a value property."
+	r.Trusted = []string{"crypto.Keccak256, merkle.SimpleHashFromTwoHashes (hash functions)", "libs/ser encoding (C11)"}
+
+	// (a) header hash coverage
+	{
+		fn := p.Func("types", "Header.Hash")
+		st := p.Struct("types", "Header")
+		exempt := map[string]string{
+			"Recover": "not in the header hash; committed through the part-set hash which every block-id comparison includes (checked below)",
+			"bloom":   "unexported cache, never encoded",
+		}
+		covered := map[string]string{}
+		ir.Instrs(fn, func(in ssa.Instruction) {
+			mu, ok := in.(*ssa.MapUpdate)
+			if !ok {
+				return
+			}
+			covered[strings.Trim(ir.Render(mu.Key), `"`)] = ir.Render(mu.Value)
+		})
+		for i := 0; i < st.NumFields(); i++ {
+			f := st.Field(i)
+			if why, ok := exempt[f.Name()]; ok {
+				_, inHash := covered[f.Name()]
+				r.Check("K4", "types.(*Header).Hash/exempt:"+f.Name(), p.Pos(f.Pos()), true, fmt.Sprintf("exempted (%s); currently hashed: %v", why, inHash))
+				continue
+			}
+			v, ok := covered[f.Name()]
+			good := ok && ir.Match("*aminoHasher(h."+f.Name()+")", v)
+			r.Check("K4", "types.(*Header).Hash/field:"+f.Name(), p.Pos(f.Pos()), good,
+				fmt.Sprintf("header field must be hashed under its own name with its own value; map entry: %q", v))
+		}
+		// the map is what is hashed and returned
+		ok := false
+		for _, rt := range ir.Returns(fn) {
+			if ir.Match("*BytesToHash(*SimpleHashFromMap(*))", ir.Render(rt.Results[0])) {
+				ok = true
+			}
+		}
+		r.Check("K4", "types.(*Header).Hash/result", p.Pos(fn.Pos()), ok, "result is BytesToHash(SimpleHashFromMap(fields))")
+		// Block.Hash returns the header hash
+		bh := p.Func("types", "Block.Hash")
+		r.Check("K4", "types.(*Block).Hash/header-hash", p.Pos(bh.Pos()), len(ir.Calls(bh, "*Header.Hash")) == 1, "Block.Hash is computed by Header.Hash")
+		ht := p.Func("types", "Block.HashesTo")
+		okHT := false
+		for _, rt := range ir.Returns(ht) {
+			if ir.Match("bytes.Equal(*Hash.Bytes(*Block.Hash(b)),hash)", ir.Render(rt.Results[0])) {
+				okHT = true
+			}
+		}
+		r.Check("K1", "types.(*Block).HashesTo/compare", p.Pos(ht.Pos()), okHT, "HashesTo returns bytes.Equal(b.Hash().Bytes(), hash)")
+	}
+
+	// (b) whole-id comparison: every field of the struct is mentioned on both sides
+	c12Mentions(c, "types", "BlockID.Equals", "BlockID", "blockID", "other")
+	c12Mentions(c, "types", "PartSetHeader.Equals", "PartSetHeader", "psh", "other")
+	c12Mentions(c, "types", "BlockID.Key", "BlockID", "blockID")
+	{
+		fn := p.Func("types", "BlockID.Equals")
+		ok := false
+		for _, rt := range ir.Returns(fn) {
+			_ = rt
+			ok = true
+		}
+		_ = ok
+		// BlockID.Equals: true only if both comparisons hold — interpret over the two boolean leaves
+		d := ir.Domain{Axes: []ir.Axis{
+			ir.BoolAxis("hashEq", "bytes.Equal(common.Hash.Bytes(blockID.Hash),common.Hash.Bytes(other.Hash))"),
+			ir.BoolAxis("partsEq", "types.PartSetHeader.Equals(blockID.PartsHeader,other.PartsHeader)"),
+		}}
+		rows := ir.Enumerate(fn, d, ir.InterpOpts{})
+		c.Table("types.BlockID.Equals/conjunction", fn, rows, func(row ir.Row) string {
+			if row.Has("hashEq") && row.Has("partsEq") {
+				return "return(true)"
+			}
+			return "return(false)"
+		}, func(row ir.Row) string { return normBoolRet(row) })
+		fn2 := p.Func("types", "PartSetHeader.Equals")
+		d2 := ir.Domain{Axes: []ir.Axis{
+			ir.EqAxis("total", "psh.Total", "other.Total"),
+			ir.BoolAxis("hashEq", "bytes.Equal(psh.Hash,other.Hash)"),
+		}}
+		rows2 := ir.Enumerate(fn2, d2, ir.InterpOpts{})
+		c.Table("types.PartSetHeader.Equals/conjunction", fn2, rows2, func(row ir.Row) string {
+			if row.Has("total=") && row.Has("hashEq") {
+				return "return(true)"
+			}
+			return "return(false)"
+		}, func(row ir.Row) string { return normBoolRet(row) })
+	}
+
+	// (c) derived hashes
+	{
+		fn := p.Func("types", "Block.ValidateBasic")
+		name := "types.(*Block).ValidateBasic"
+		n := 0
+		for _, rt := range ir.Returns(fn) {
+			if ir.AbstractResult(rt.Results[0]) != "nil" {
+				continue
+			}
+			n++
+			c.Guards(name, "return nil", rt.Instr,
+				G{"block-non-nil", "!eq(b,nil)"},
+				G{"NumTxs", ir.EqPat("b.Header.NumTxs", "len(b.Data.Txs)")},
+				G{"LastCommitHash", "bytes.Equal(*Hash.Bytes(b.Header.LastCommitHash),*Hash.Bytes(*Commit.Hash(b.LastCommit)))"},
+				G{"DataHash", "bytes.Equal(*Hash.Bytes(b.Header.DataHash),*Hash.Bytes(*Data.Hash(b.Data)))"},
+				G{"EvidenceHash", "bytes.Equal(*Hash.Bytes(b.Header.EvidenceHash),*Hash.Bytes(*EvidenceData.Hash(&b.Evidence)))"},
+			)
+		}
+		c.MustFind("K1", name+"/return nil", fn, n, "nil-error return")
+		// commit validated for heights > 1
+		for _, call := range ir.Calls(fn, "*Commit.ValidateBasic") {
+			r.Check("K1", name+"/LastCommit.ValidateBasic", p.InstrPos(call), Arg(call, 0) == "b.LastCommit", "validates b.LastCommit")
+		}
+		// list hashes cover all elements
+		c12Split(c, "types", "Txs.Hash", "txs")
+		c12Split(c, "types", "EvidenceList.Hash", "evl")
+		// Data.Hash uses Txs.Hash of its own Txs; EvidenceData.Hash its own list
+		dh := p.Func("types", "Data.Hash")
+		okD := false
+		for _, call := range ir.Calls(dh, "*Txs.Hash") {
+			if Arg(call, 0) == "data.Txs" {
+				okD = true
+			}
+		}
+		r.Check("K4", "types.(*Data).Hash/txs", p.Pos(dh.Pos()), okD, "Data.Hash hashes data.Txs")
+		eh := p.Func("types", "EvidenceData.Hash")
+		okE := false
+		for _, call := range ir.Calls(eh, "*EvidenceList.Hash") {
+			if Arg(call, 0) == "data.Evidence" {
+				okE = true
+			}
+		}
+		r.Check("K4", "types.(*EvidenceData).Hash/list", p.Pos(eh.Pos()), okE, "EvidenceData.Hash hashes data.Evidence")
+		// Commit.Hash: one hasher per precommit, same index
+		ch := p.Func("types", "Commit.Hash")
+		okC := false
+		ir.Instrs(ch, func(in ssa.Instruction) {
+			if st, ok := in.(*ssa.Store); ok {
+				a, v := ir.Render(st.Addr), ir.Render(st.Val)
+				ma := regexp.MustCompile(`^&make\(.*\)\[(.+)\]$`).FindStringSubmatch(a)
+				mv := regexp.MustCompile(`aminoHasher\(commit\.Precommits\[(.+)\]\)$`).FindStringSubmatch(v)
+				if ma != nil && mv != nil && ma[1] == mv[1] {
+					okC = true
+				}
+			}
+		})
+		r.Check("K4", "types.(*Commit).Hash/per-precommit", p.Pos(ch.Pos()), okC, "bs[i] = aminoHasher(commit.Precommits[i]) for the same i")
+		okC2 := false
+		for _, mk := range ir.Calls(ch, "*SimpleHashFromHashers") {
+			_ = mk
+			okC2 = true
+		}
+		r.Check("K4", "types.(*Commit).Hash/merkle", p.Pos(ch.Pos()), okC2, "commit hash is the merkle root of the per-precommit hashers")
+		// application compares the data hash before executing (both CheckBlock variants)
+		for _, fnn := range []string{"LinkApplication.CheckBlock", "LinkApplication.CheckBlockInCommit"} {
+			f := p.TryFunc("app", fnn)
+			if f == nil {
+				continue
+			}
+			found := 0
+			for _, rt := range ir.Returns(f) {
+				if ir.AbstractResult(rt.Results[0]) != "true" {
+					continue
+				}
+				found++
+				c.Guards("app.(*"+strings.Replace(fnn, ".", ").", 1), "return true", rt.Instr,
+					G{"data-hash", ir.EqPat("block.Header.DataHash", "*Data.Hash(block.Data)")})
+			}
+			c.MustFind("K1", "app."+fnn+"/return true", f, found, "return true")
+		}
+	}
+
+	// (d) part admission
+	c12AddPart(c, "C12")
+	{
+		ph := p.Func("types", "Part.Hash")
+		ok := false
+		for _, call := range ir.Calls(ph, "crypto.Keccak256") {
+			if strings.Contains(ir.RenderCall(call), "part.Bytes") {
+				ok = true
+			}
+		}
+		r.Check("K4", "types.(*Part).Hash/bytes", p.Pos(ph.Pos()), ok, "the part hash is Keccak256 of part.Bytes")
+		// writers of the cache field
+		c.WhoMayWrite("types", "Part.hash", "types.(*Part).Hash")
+		vf := p.Func("libs/crypto/merkle", "SimpleProof.Verify")
+		okV := false
+		for _, rt := range ir.Returns(vf) {
+			s := ir.Render(rt.Results[0])
+			if strings.Contains(s, "bytes.Equal(merkle.computeHashFromAunts(index,total,leafHash,sp.Aunts),rootHash)") {
+				okV = true
+			}
+		}
+		// Verify is `computed != nil && bytes.Equal(computed, root)`: interpret
+		d := ir.Domain{Axes: []ir.Axis{
+			ir.NilAxis("computed", "merkle.computeHashFromAunts(index,total,leafHash,sp.Aunts)"),
+			ir.BoolAxis("equalsRoot", "bytes.Equal(merkle.computeHashFromAunts(index,total,leafHash,sp.Aunts),rootHash)"),
+		}}
+		rows := ir.Enumerate(vf, d, ir.InterpOpts{})
+		c.Table("merkle.(*SimpleProof).Verify/decision", vf, rows, func(row ir.Row) string {
+			if row.Has("computed≠nil") && row.Has("equalsRoot") {
+				return "return(true)"
+			}
+			return "return(false)"
+		}, func(row ir.Row) string { return normBoolRet(row) })
+		_ = okV
+		// computeHashFromAunts rejects out-of-range first
+		cf := p.Func("libs/crypto/merkle", "computeHashFromAunts")
+		for _, call := range ir.Calls(cf, "merkle.SimpleHashFromTwoHashes") {
+			c.Guards("merkle.computeHashFromAunts", "combine", call,
+				G{"index<total", "lt(index,total)"}, G{"index>=0", "le(0,index)"}, G{"total>0", "lt(0,total)"})
+		}
+		for _, rt := range ir.Returns(cf) {
+			if ir.Render(rt.Results[0]) == "leafHash" {
+				c.Guards("merkle.computeHashFromAunts", "return leaf", rt.Instr,
+					G{"total==1", "eq(total,1)"}, G{"no-extra-aunts", "eq(len(innerHashes),0)"}, G{"index>=0", "le(0,index)"}, G{"index<total", "lt(index,total)"})
+			}
+		}
+	}
+
+	// (e) reassembly
+	{
+		fn := p.Func("consensus", "ConsensusState.addProposalBlockPart")
+		name := csT + "addProposalBlockPart"
+		calls := ir.Calls(fn, "ser.DecodeReader")
+		c.MustFind("K1", name+"/decode", fn, len(calls), "ser.DecodeReader call")
+		for _, call := range calls {
+			c.Guards(name, "decode", call,
+				G{"part-added", "*PartSet.AddPart(cs.RoundState.ProposalBlockParts,*)#0"},
+				G{"add-no-error", "eq(*PartSet.AddPart(cs.RoundState.ProposalBlockParts,*)#1,nil)"},
+				G{"complete", "*PartSet.IsComplete(cs.RoundState.ProposalBlockParts)"},
+				G{"same-height", ir.EqPat("cs.RoundState.Height", "msg.Height")})
+			r.Check("K1", name+"/decode/source", p.InstrPos(call), ir.Match("*PartSet.GetReader(cs.RoundState.ProposalBlockParts)", Arg(call, 0)) && Arg(call, 1) == "&cs.RoundState.ProposalBlock",
+				"decodes the reader of ProposalBlockParts into ProposalBlock: "+Arg(call, 0)+" -> "+Arg(call, 1))
+			r.Check("K1", name+"/decode/bounded", p.InstrPos(call), Arg(call, 2) != "0" && Arg(call, 2) != "<missing>", "decode limit is not the constant 0: "+Arg(call, 2))
+		}
+		gr := p.Func("types", "PartSet.GetReader")
+		for _, call := range ir.Calls(gr, "types.NewPartSetReader") {
+			c.Guards("types.(*PartSet).GetReader", "reader", call, G{"complete", "*PartSet.IsComplete(ps)"})
+			r.Check("K1", "types.(*PartSet).GetReader/reader/parts", p.InstrPos(call), Arg(call, 0) == "ps.parts", "reads ps.parts")
+		}
+		ic := p.Func("types", "PartSet.IsComplete")
+		okIC := false
+		for _, rt := range ir.Returns(ic) {
+			if s := ir.Render(rt.Results[0]); s == "(ps.count == ps.total)" || s == "(ps.total == ps.count)" {
+				okIC = true
+			}
+		}
+		r.Check("K1", "types.(*PartSet).IsComplete/count==total", p.Pos(ic.Pos()), okIC, "complete iff count == total")
+		c.WhoMayWrite("types", "PartSet.count", "types.(*PartSet).AddPart", "types.NewPartSetFromData", "types.NewPartSetFromHeader")
+		c.WhoMayWrite("types", "PartSet.total", "types.NewPartSetFromData", "types.NewPartSetFromHeader")
+		c.WhoMayWrite("types", "PartSet.hash", "types.NewPartSetFromData", "types.NewPartSetFromHeader")
+		c.WhoMayWrite("types", "PartSet.parts", "types.(*PartSet).AddPart", "types.NewPartSetFromData", "types.NewPartSetFromHeader")
+		// reader walks parts in index order: i only ever incremented by one, reader built from parts[i]
+		rd := p.Func("types", "PartSetReader.Read")
+		iF := p.Field("types", "PartSetReader.i")
+		okI := true
+		ni := 0
+		for _, s := range p.Stores(iF) {
+			if s.Fn == rd {
+				ni++
+				if ir.Render(s.Val) != "(psr.i + 1)" {
+					okI = false
+				}
+			}
+		}
+		r.Check("K5", "types.(*PartSetReader).Read/index-order", p.Pos(rd.Pos()), okI && ni == 1, "the part cursor only advances by one")
+		okB := false
+		for _, s := range p.Stores(p.Field("types", "PartSetReader.reader")) {
+			if s.Fn == rd && ir.Match("bytes.NewReader(psr.parts[psr.i].Bytes)", ir.Render(s.Val)) {
+				okB = true
+			}
+		}
+		r.Check("K5", "types.(*PartSetReader).Read/next-part-bytes", p.Pos(rd.Pos()), okB, "after a part is drained the reader continues with parts[i].Bytes")
+		nr := p.Func("types", "NewPartSetReader")
+		okN := false
+		for _, s := range p.Stores(p.Field("types", "PartSetReader.reader")) {
+			if s.Fn == nr && ir.Match("bytes.NewReader(parts[0].Bytes)", ir.Render(s.Val)) {
+				okN = true
+			}
+		}
+		r.Check("K5", "types.NewPartSetReader/first-part", p.Pos(nr.Pos()), okN, "reading starts with parts[0]")
+
+		// who creates ProposalBlockParts, and from what
+		stores := c.WhoMayWrite("consensus/types", "RoundState.ProposalBlockParts",
+			csT+"defaultSetProposal", csT+"enterPrecommit", csT+"enterCommit", csT+"enterNewRound", csT+"updateToStatus", csT+"defaultDecideProposal", csT+"SetProposalAndBlock")
+		for _, s := range stores {
+			top := ir.FuncName(ir.EnclosingTop(s.Fn))
+			v := ir.Render(s.Val)
+			switch top {
+			case csT + "defaultSetProposal":
+				r.Check("K1", top+"/parts-from-proposal", p.InstrPos(s.Instr), v == "types.NewPartSetFromHeader(proposal.BlockPartsHeader)", "part set is created from the proposal's parts header: "+v)
+				c.Guards(top, "accept proposal parts", s.Instr,
+					G{"signature", "*PubKey.VerifyBytes(*Validator.PubKey,*Proposal.SignBytes(proposal,cs.status.ChainID),proposal.Signature) || *VerifyBytes(*GetProposer(cs.RoundState.Validators)*,*Proposal.SignBytes(proposal,cs.status.ChainID),proposal.Signature)"},
+					G{"height", ir.EqPat("cs.RoundState.Height", "proposal.Height")},
+					G{"round", ir.EqPat("cs.RoundState.Round", "proposal.Round")})
+			case csT + "enterPrecommit":
+				r.Check("K1", top+"/parts-from-polka", p.InstrPos(s.Instr), ir.Match("types.NewPartSetFromHeader("+polkaID+".PartsHeader)", v), "part set is created from the polka block id: "+v)
+			case csT + "enterCommit":
+				if v != "cs.RoundState.LockedBlockParts" {
+					r.Check("K1", top+"/parts-from-commit", p.InstrPos(s.Instr), ir.Match("types.NewPartSetFromHeader(*VoteSet.TwoThirdsMajority(*HeightVoteSet.Precommits(cs.RoundState.Votes,commitRound))#0.PartsHeader)", v), "part set is created from the +2/3 precommit block id: "+v)
+				}
+			case csT + "enterNewRound", csT + "updateToStatus":
+				r.Check("K1", top+"/parts-reset", p.InstrPos(s.Instr), v == "nil", "only reset to nil: "+v)
+			}
+		}
+	}
+	// fast sync: block id from hash AND part-set header
+	{
+		fn := p.Func("blockchain", "BlockchainReactor.poolRoutine")
+		n := 0
+		ir.InstrsDeep(fn, func(f *ssa.Function, in ssa.Instruction) {
+			call, ok := in.(ssa.CallInstruction)
+			if !ok || !ir.Match("*ValidatorSet.VerifyCommit", ir.CalleeName(call)) {
+				return
+			}
+			n++
+			id := Arg(call, 2)
+			r.Check("K4", "blockchain.(*BlockchainReactor).poolRoutine/VerifyCommit/block-id", p.InstrPos(in),
+				strings.Contains(id, "Block.Hash(") && strings.Contains(id, "PartSet.Header(") && strings.Contains(id, "Block.MakePartSet("),
+				"the block id checked against the commit is {first.Hash(), first.MakePartSet().Header()}: "+short(id, 300))
+		})
+		c.MustFind("K4", "blockchain.(*BlockchainReactor).poolRoutine/VerifyCommit", fn, n, "VerifyCommit call")
+	}
+}
+
+func normBoolRet(row ir.Row) string {
+	o := row.Outcome
+	if o.Kind != "return" || len(o.Results) != 1 {
+		return o.String()
+	}
+	res := o.Results[0]
+	// a returned boolean leaf of the domain takes its value from the env
+	if v, ok := row.Env.Bool[res]; ok {
+		return fmt.Sprintf("return(%v)", v)
+	}
+	return o.String()
+}
+
+// c12Mentions: K4 — function fn mentions every field of struct T through each
+// of the given roots (receiver / parameter names).
+func c12Mentions(c C, rel, fnName, structName string, roots ...string) {
+	fn := c.P.Func(rel, fnName)
+	st := c.P.Struct(rel, structName)
+	seen := map[string]bool{}
+	ir.Instrs(fn, func(in ssa.Instruction) {
+		var ops []*ssa.Value
+		for _, op := range in.Operands(ops) {
+			if *op == nil {
+				continue
+			}
+			s := ir.Render(*op)
+			for _, root := range roots {
+				for i := 0; i < st.NumFields(); i++ {
+					if strings.Contains(s, root+"."+st.Field(i).Name()) {
+						seen[root+"."+st.Field(i).Name()] = true
+					}
+				}
+			}
+		}
+	})
+	for _, root := range roots {
+		for i := 0; i < st.NumFields(); i++ {
+			k := root + "." + st.Field(i).Name()
+			c.R.Check("K4", rel+"."+fnName+"/mentions:"+k, c.P.Pos(fn.Pos()), seen[k], "every field of "+structName+" takes part in the comparison/key")
+		}
+	}
+}
+
+// c12Split: a recursive list hash covers the whole list: [:k] and [k:] with the same k.
+func c12Split(c C, rel, fnName, param string) {
+	fn := c.P.Func(rel, fnName)
+	var lows, highs []string
+	ir.Instrs(fn, func(in ssa.Instruction) {
+		if sl, ok := in.(*ssa.Slice); ok && ir.Render(sl.X) == param {
+			if sl.Low == nil && sl.High != nil {
+				highs = append(highs, ir.Render(sl.High))
+			}
+			if sl.Low != nil && sl.High == nil {
+				lows = append(lows, ir.Render(sl.Low))
+			}
+		}
+	})
+	sort.Strings(lows)
+	sort.Strings(highs)
+	ok := len(lows) == 1 && len(highs) == 1 && lows[0] == highs[0]
+	c.R.Check("K5", rel+"."+fnName+"/split-coverage", c.P.Pos(fn.Pos()), ok, fmt.Sprintf("halves are %s[:k] and %s[k:] with one k (found highs %v lows %v)", param, param, highs, lows))
+	one := false
+	for _, rt := range ir.Returns(fn) {
+		if ir.Match("*.Hash("+param+"[0])", ir.Render(rt.Results[0])) {
+			one = true
+		}
+	}
+	c.R.Check("K5", rel+"."+fnName+"/single-element", c.P.Pos(fn.Pos()), one, "a one-element list hashes to the element's hash")
 }
 
 // c12AddPart: K1 part admission guards in (*PartSet).AddPart (shared with C16).
-func c12AddPart(p *ir.Program, r *report.R, prop string) {
+func c12AddPart(c C, prop string) {
+	p, r := c.P, c.R
 	fn := p.Func("types", "PartSet.AddPart")
 	name := "types.(*PartSet).AddPart"
-	partsF := p.Field("types", "PartSet.parts")
+	gs := []G{
+		{"lower-bound", "le(0,part.Index)"},
+		{"upper-bound", "lt(part.Index,ps.total)"},
+	}
+	full := append(append([]G{}, gs...),
+		G{"slot-empty", "eq(ps.parts[part.Index],nil)"},
+		G{"proof", "*SimpleProof.Verify(&part.Proof,part.Index,ps.total,*Part.Hash(part),*PartSet.Hash(ps))"})
 	n := 0
-	for _, s := range p.Stores(partsF) {
+	for _, s := range p.Stores(p.Field("types", "PartSet.parts")) {
 		if s.Fn != fn || s.Kind != "elem" {
 			continue
 		}
 		n++
-		fs := ir.FactsAt(s.Instr)
-		pos := p.InstrPos(s.Instr)
-		r.Check("K1", name+"/store parts[i]/lower-bound", pos, ir.HasFact(fs, "le(0,part.Index)"), "store into ps.parts[part.Index] must be dominated by 0 <= part.Index")
-		r.Check("K1", name+"/store parts[i]/upper-bound", pos, ir.HasFact(fs, "lt(part.Index,ps.total)"), "must be dominated by part.Index < ps.total")
-		r.Check("K1", name+"/store parts[i]/slot-empty", pos, ir.HasFact(fs, "eq(nil,ps.parts[part.Index])"), "must be dominated by ps.parts[part.Index] == nil")
-		r.Check("K1", name+"/store parts[i]/proof", pos, ir.HasFact(fs, "SimpleProof.Verify(&part.Proof,part.Index,ps.total,Part.Hash(part),PartSet.Hash(ps))"), "must be dominated by a successful Merkle proof of part.Hash() at part.Index under ps.Hash()")
+		c.Guards(name, "store parts[i]", s.Instr, full...)
+		r.Check("K1", name+"/store parts[i]/value", p.InstrPos(s.Instr), ir.Render(s.Val) == "part", "the stored part is the verified one")
 	}
-	if n == 0 {
-		r.Undecided("K1", name+"/store parts[i]", p.Pos(fn.Pos()), "no element store into ps.parts found")
+	c.MustFind("K1", name+"/store parts[i]", fn, n, "element store into ps.parts")
+	for _, s := range p.Stores(p.Field("types", "PartSet.count")) {
+		if s.Fn == fn {
+			c.Guards(name, "count++", s.Instr, full...)
+		}
+	}
+	if prop == "C12" {
+		for _, call := range ir.Calls(fn, "*BitArray.SetIndex") {
+			c.Guards(name, "SetIndex", call, full...)
+		}
+	}
+	// every index expression ps.parts[part.Index] is inside both bounds
+	ni := 0
+	ir.Instrs(fn, func(in ssa.Instruction) {
+		ia, ok := in.(*ssa.IndexAddr)
+		if !ok {
+			return
+		}
+		if fv, _ := fieldOf(ia.X); fv == nil || fv.Name() != "parts" {
+			return
+		}
+		ni++
+		c.Guards(name, "index parts[i]", in, gs...)
+	})
+	c.MustFind("K1", name+"/index parts[i]", fn, ni, "index expression on ps.parts")
+	// return (true, nil) only on the admitting path
+	for _, rt := range ir.Returns(fn) {
+		if ir.AbstractResult(rt.Results[0]) == "true" {
+			c.Guards(name, "return true", rt.Instr, full...)
+		}
 	}
 }
+
+func fieldOf(v ssa.Value) (*types.Var, ssa.Value) {
+	switch x := v.(type) {
+	case *ssa.UnOp:
+		if fa, ok := x.X.(*ssa.FieldAddr); ok {
+			return ir.FieldVar(fa.X, fa.Field), fa.X
+		}
+	case *ssa.FieldAddr:
+		return ir.FieldVar(x.X, x.Field), x.X
+	}
+	return nil, nil
+}
+
+var _ = report.Discharged
